@@ -337,7 +337,11 @@ def runRequest {σ : Type} (lim : Limits) (rd : Nat → σ → Except Err (Bytes
       match contentLoop rd (if pre then some bufSize else none) (n + 1) n [] st with
       | (.error e, st') => (.aborted e pre pre, st')
       | (.ok body, st') =>
-        let post := if !pre && mt == mtFormUrlencoded then (parseForm (body.length + 1) body []).2 else []
-        (.app kind pre (mkView post body), st')
+        if !pre && mt == mtFormUrlencoded then
+          let (ok, f) := parseForm (body.length + 1) body []
+          match ok, Gen.postParseFailure with
+          | false, some code => (.status code false false, st')
+          | _, _ => (.app kind pre (mkView f body), st')
+        else (.app kind pre (mkView [] body), st')
 
 end Cppcms.C01
